@@ -8,6 +8,7 @@ package main
 import (
 	"fmt"
 	"sort"
+	"strings"
 
 	kvql "github.com/c4pt0r/kvql"
 )
@@ -167,7 +168,7 @@ func c01Case(e *emitter, pred string, store [][2]string) {
 
 func runC01(c *runCtx) error {
 	r := newRng(c.seed)
-	header := "From Coq Require Import List String ZArith.\nFrom KV Require Import Base.Bytes Model.Ast Model.Value Corr.EvalCommon Corr.C01.\nImport ListNotations.\nOpen Scope string_scope.\n"
+	header := "From Coq Require Import List String ZArith.\nFrom KV Require Import Base.Bytes Model.Ast Model.Value Model.ScanIO Corr.EvalCommon Corr.C01Text Corr.C01.\nImport ListNotations.\nOpen Scope string_scope.\n"
 	e := newEmitter(c.out, "C01", header, 120)
 	e.m.Rule = "predicates from the typed grammar of the documented core language (comparisons, prefix, IN, BETWEEN, logic, arithmetic over key/value/literals, conversion and string functions; depth <= 4) AND/OR-mixed with key-constraining atoms; stores of 0..23 pairs over a literal pool closed under prefix/successor; each statement drained row-at-a-time and in batches (B in {2,3,32}, cache on/off); non-trivial = some but not all pairs are returned; distinct = distinct (tree, store, runs) terms"
 	n := 1500
@@ -182,7 +183,7 @@ func runC01(c *runCtx) error {
 	// Go side only (every drain against the row-at-a-time filter over the whole store)
 	reAtoms := []string{"key ~= '^a'", "value ~= '^[0-9]+$'", "key ~= value", "value ~= key", "'ab' ~= value",
 		"key ~= '.b'", "value ~= 'a|b'", "upper(key) ~= '^A'", "key ~= lower(value)"}
-	for i := 0; i < n; i++ {
+	genPred := func() string {
 		var pred string
 		switch r.intn(6) {
 		case 5:
@@ -201,7 +202,10 @@ func runC01(c *runCtx) error {
 		default:
 			pred = g.gen(gBool, 1+r.intn(4))
 		}
-		c01Case(e, pred, c01Store(r, r.intn(24)))
+		return pred
+	}
+	for i := 0; i < n; i++ {
+		c01Case(e, genPred(), c01Store(r, r.intn(24)))
 	}
 	// = / != with a float operand (integer, float and mixed pairs).  The stores hold only values
 	// whose float reading is inside the twin's float model (no 1e2, nothing >= 2^53), numeric
@@ -228,5 +232,459 @@ func runC01(c *runCtx) error {
 		c01Case(e, pred, feqStore(numVals))
 		c01Case(e, pred, feqStore(mixVals))
 	}
+	// the same predicates as query TEXTS through the whole pipeline (Model/Pipeline.v)
+	pbRun(c, e, r, genPred, katoms)
 	return e.flush()
+}
+
+// ---------------------------------------------------------------------------------------------
+// C01 from the query TEXT: kvql.NewOptimizer(q).BuildPlan(store) + drain against the Coq twin of
+// the whole pipeline (Model/Pipeline.v select_text, evaluated by Corr/C01Text.v): lexer,
+// statement parser, checker, function-call check, constant folding of the WHERE tree, region
+// inference on the folded tree, scan node choice, scan + filter + `*` projection.
+
+type pbReplay struct {
+	Kind  string      `json:"kind"`
+	Query string      `json:"query"`
+	Store [][2]string `json:"store"`
+	Want  []string    `json:"keys_satisfying_P_by_full_filter,omitempty"`
+	Got   []string    `json:"keys_returned,omitempty"`
+	Mode  string      `json:"mode,omitempty"`
+	Err   string      `json:"error,omitempty"`
+	Obs   []string    `json:"observed_per_mode,omitempty"`
+	Scan  string      `json:"scan,omitempty"`
+}
+
+// pbTokens splits a generated predicate into lexical units: quoted texts, words, two-character
+// operators, single characters.  (Only used to re-render it; the text that results is the input.)
+func pbTokens(s string) []string {
+	var out []string
+	isWord := func(c byte) bool {
+		return c == '_' || c == '.' || (c >= '0' && c <= '9') || (c >= 'a' && c <= 'z') || (c >= 'A' && c <= 'Z')
+	}
+	for i := 0; i < len(s); {
+		c := s[i]
+		switch {
+		case c == ' ' || c == '\t' || c == '\n':
+			i++
+		case c == '\'' || c == '"' || c == '`':
+			j := i + 1
+			for j < len(s) && s[j] != c {
+				j++
+			}
+			if j < len(s) {
+				j++
+			}
+			out = append(out, s[i:j])
+			i = j
+		case isWord(c):
+			j := i
+			for j < len(s) && isWord(s[j]) {
+				j++
+			}
+			out = append(out, s[i:j])
+			i = j
+		default:
+			if i+1 < len(s) && s[i+1] == '=' && (c == '!' || c == '^' || c == '~' || c == '>' || c == '<') {
+				out = append(out, s[i:i+2])
+				i += 2
+			} else {
+				out = append(out, s[i:i+1])
+				i++
+			}
+		}
+	}
+	return out
+}
+
+var pbCaseWords = map[string]bool{"select": true, "where": true, "and": true, "or": true, "in": true, "between": true,
+	"key": true, "value": true, "true": true, "false": true, "int": true, "float": true, "str": true, "upper": true,
+	"lower": true, "strlen": true, "substr": true, "is_int": true, "is_float": true}
+
+func pbWordish(t string) bool {
+	c := t[0]
+	return c == '_' || c == '.' || (c >= '0' && c <= '9') || (c >= 'a' && c <= 'z') || (c >= 'A' && c <= 'Z')
+}
+
+// pbRender joins the units with varied spacing and keyword case.  style 0: single spaces, as
+// written; 1: tight (no space where two units cannot fuse); 2: random blanks, tabs, newlines.
+func pbRender(r *rng, toks []string, style int, mixCase bool) string {
+	var b []byte
+	for i, t := range toks {
+		if mixCase && pbCaseWords[t] {
+			switch r.intn(3) {
+			case 0:
+				t = strings.ToUpper(t)
+			case 1:
+				t = strings.ToUpper(t[:1]) + t[1:]
+			}
+		}
+		if i > 0 {
+			prev := toks[i-1]
+			need := pbWordish(prev) && pbWordish(t)
+			// an operator followed by `=` would fuse; `-`/`+` keep their neighbours as they are
+			fuse := (t == "=" && strings.ContainsAny(prev[len(prev)-1:], "!^~<>=")) || prev == "-" || t == "-"
+			switch style {
+			case 0:
+				if need || !(t == ")" || t == "," || prev == "(" || t == "(" && pbWordish(prev) && !pbKeyword(prev)) {
+					b = append(b, ' ')
+				}
+			case 1:
+				if need || fuse {
+					b = append(b, ' ')
+				}
+			default:
+				n := r.intn(3)
+				if (need || fuse) && n == 0 {
+					n = 1
+				}
+				for k := 0; k < n; k++ {
+					b = append(b, pick(r, []byte{' ', ' ', ' ', ' ', '\t', '\n'}))
+				}
+			}
+		}
+		b = append(b, t...)
+	}
+	return string(b)
+}
+
+func pbKeyword(w string) bool {
+	switch strings.ToLower(w) {
+	case "and", "or", "in", "between", "where", "select":
+		return true
+	}
+	return false
+}
+
+// pbText renders `select * where P` from a generated predicate.
+func pbText(r *rng, pred string) string {
+	for k := r.intn(3); k > 0 && r.chance(1, 2); k-- {
+		pred = "(" + pred + ")"
+	}
+	head := "select * where"
+	switch r.intn(5) {
+	case 0:
+		head = "where"
+	case 1:
+		head = "select*where"
+	}
+	toks := pbTokens(head + " " + pred)
+	switch r.intn(6) {
+	case 0:
+		toks = append(toks, ";")
+	case 1:
+		toks = append(toks, ";", ";")
+	}
+	return pbRender(r, toks, r.intn(3), r.chance(1, 2))
+}
+
+// pbMangle: a malformed variant (a unit dropped, doubled, or the text cut).
+func pbMangle(r *rng, q string) string {
+	toks := pbTokens(q)
+	if len(toks) < 2 {
+		return q
+	}
+	i := r.intn(len(toks))
+	switch r.intn(4) {
+	case 0:
+		toks = append(toks[:i:i], toks[i+1:]...)
+	case 1:
+		toks = append(toks[:i+1:i+1], toks[i:]...)
+	case 2:
+		toks = toks[:i+1]
+	default:
+		toks[i] = pick(r, []string{")", "(", ",", "=", "key", "'a'", "1", "and", "x", "!", "limit", "in"})
+	}
+	return pbRender(r, toks, 0, false)
+}
+
+// constant and foldable sub-predicates: what the constant folder rewrites before the region is
+// inferred (comparisons of literals, literal arithmetic / concatenation / calls next to key)
+var pbConstAtoms = []string{"1 = 1", "2 > 1", "'a' = 'b'", "1 + 1 = 2", "'a' + 'b' = 'ab'", "1 = 2", "'a' < 'b'",
+	"upper('a') = 'A'", "strlen('abc') = 3", "2 * 3 != 6", "lower('B') ^= 'b'", "int('7') >= 7", "true", "false"}
+var pbFoldAtoms = []string{"key = 'a' + 'b'", "key ^= lower('A')", "key between 'a' and 'a' + 'z'", "key in ('a', 'b' + 'c')",
+	"key > upper('a')", "key = str(1 + 11)", "'a' + 'b' = key", "key <= 'b' + ''", "key = substr('xab', 1, 3)",
+	"key ^= 'a' + 'b' & value = str(2 * 6)", "key in ('ab', 'a' + 'b')", "key >= lower('B') + '0'"}
+
+// texts with a fixed reading: rejections of every front-end stage, the `*` field context,
+// constant WHERE clauses, statement shapes outside the model
+var pbDirected = []string{
+	"select * where nofunc(key) = 'a'", "where int(value, 1) > 2", "select * where count(value) > 1",
+	"where upper(key) = 'A' & sum(1) = 1", "where substr(key, 1) = 'a'", "select * where !is_int(value, 2)",
+	"where key in ('a', nofunc('b'))", "where key = 'a' | strlen() = 0",
+	"select * where `KEY` = 'a'", "where `KEY` = 'a'", "select * where `VALUE` ^= '1' | key = 'b'", "select * where `KEY`",
+	"select * where `KEY` in ('a', 'ab') & `VALUE` != ''", "select * where upper(`KEY`) = 'A'", "where upper(`KEY`) = 'A'",
+	"select * where `key` = 'a'", "select * where `Key` = 'a'",
+	"select * where key", "where 1", "where true", "where false", "select * where false | key = 'a'", "where true & key ^= 'a'",
+	"select *", "select", "where", "", ";", ";;", "select * where", "select * where ;", "select * from x where key = 'a'",
+	"select *, key where key = 'a'", "select key, * where key = 'a'", "select * * where key = 'a'", "select where key = 'a'",
+	"select * where key = 'a' limit 1", "select * where key = 'a' order by key", "select * where key = 'a' group by key",
+	"select key where key = 'a'", "select key, value where key ^= 'a'", "delete where key = 'zzz'", "put ('zzz', 'b')", "remove 'zzz'",
+	"select * where key = 'a' key", "select * where (key = 'a'", "select * where key = 'a')", "where key = ", "where = 'a'",
+	"where key = 'a' &", "where key = 'a' and", "where key in ()", "where key in 'a'", "where key between 'a'", "where key between 'a' and",
+	"where key = 1", "where value > 1", "where int(value) = 'a'", "where key + 1 = 'a'", "where key & value", "where !key",
+	"where key = 'a' + 'b'", "where key ^= lower('A')", "where 1 = 1", "select * where 'a' = 'a' | key = 'zz'",
+	"where 1 + 1 = 2 & key > 'b'", "where strlen('abc') = 3", "where upper('a') = 'A' & key < 'b'", "where !(1 = 2)", "where 1 = 2",
+	"where key = 'a' & false", "where 2 > 1 and key ^= 'a'", "where key ^= 'a' or 1 = 2", "where (1 = 1 | key = 'a') & key != 'b'",
+	"where key = 'a' | (1 = 1)", "where (key = 'a' | 1 = 1) & (key = 'b' | 2 = 2)", "where 'a' + 'b' = 'ab' & 'x' != 'y'",
+	"where float(value) > 1.5", "where 1.5 + 1 = 2.5", "where int(value) / 0 = 1", "where int(value) / (1 - 1) = 1",
+	"where key ~= '^a'", "where 1 = 1 | key ~= '^a'", "where key = 'a' & value ~= '1'",
+	"WHERE KEY='a'OR KEY='b'", "select*where(key)=('a')", "where key='a'or key='b'", "where key=\"a\"", "where key = 'a' ; ",
+	"where\tkey\n=\n'ab'", "  where key = 'a'", "where key = 'it''s'", "where key = 'a' -- x", "where key = 'a' 'b'",
+	"where key in ('a','b',)", "where key in ('a' 'b')", "where (((key = 'a')))", "where ((key = 'a') | (key = 'b'))) ",
+	"where value = '' | key = ''", "where key >= '' & key < 'b'", "where key > 'a' & key < 'a'", "where key between 'b' and 'a'",
+	"where key between 'a' and 'a'", "where key in ('a', 'a', 'ab') | key ^= 'k'", "where key = 'a' & key = 'b'",
+}
+
+func pbScanTerm(p kvql.Plan) (term, kind string) {
+	switch x := p.(type) {
+	case *kvql.EmptyResultPlan:
+		return "SEmpty", "EMPTY"
+	case *kvql.MultiGetPlan:
+		return "(SMget " + coqStrList(x.Keys) + ")", "MGET"
+	case *kvql.PrefixScanPlan:
+		return "(SPrefix " + coqStr(x.Prefix) + ")", "PREFIX"
+	case *kvql.RangeScanPlan:
+		return "(SRange " + coqOptStr(x.Start) + " " + coqOptStr(x.End) + ")", "RANGE"
+	case *kvql.FullScanPlan:
+		return "SFull", "FULL"
+	}
+	return "", fmt.Sprintf("?%T", p)
+}
+
+type pbMode struct {
+	batch bool
+	B     int
+	cache bool
+}
+
+var pbModes = []pbMode{{false, 32, true}, {true, 2, false}, {true, 3, true}, {true, 32, false}}
+
+// pbShape: is the statement `select * where P` / `where P` without ORDER BY, GROUP BY, LIMIT
+// (judged on the statement the implementation parsed)?
+func pbShape(stmt kvql.Statement) (*kvql.SelectStmt, bool) {
+	sel, ok := stmt.(*kvql.SelectStmt)
+	if !ok || sel == nil || !sel.AllFields || sel.Limit != nil || sel.Order != nil || sel.GroupBy != nil || sel.Where == nil {
+		return nil, false
+	}
+	return sel, true
+}
+
+// pbShapeGuard mirrors Model/Pipeline.v shape_guard on the implementation's own tokens.
+func pbShapeGuard(query string) (ok bool) {
+	defer func() {
+		if recover() != nil {
+			ok = true
+		}
+	}()
+	toks := kvql.NewLexer(query).Split()
+	for _, t := range toks {
+		if t.Tp == kvql.ORDER || t.Tp == kvql.GROUP {
+			return false
+		}
+	}
+	n := len(toks)
+	for n > 1 && toks[n-1].Tp == kvql.SEMI {
+		n--
+	}
+	toks = toks[:n]
+	if len(toks) == 0 {
+		return true
+	}
+	switch toks[0].Tp {
+	case kvql.PUT, kvql.REMOVE, kvql.DELETE:
+		return false
+	case kvql.SELECT:
+		if len(toks) == 1 {
+			return true
+		}
+		t1 := toks[1]
+		return (t1.Tp == kvql.OPERATOR && t1.Data == "*") || t1.Tp == kvql.WHERE
+	}
+	return true
+}
+
+func pbCase(e *emitter, query string, store [][2]string) {
+	rp := pbReplay{Kind: "query text through NewOptimizer(q).BuildPlan(store), drained", Query: query, Store: store}
+	// the tree the parser + checker leave (not folded); the reference for the direct verdict
+	treeTerm := "None"
+	var sel *kvql.SelectStmt
+	func() {
+		defer func() { recover() }()
+		if stmt, err := kvql.NewParser(query).Parse(); err == nil {
+			if s, ok := pbShape(stmt); ok {
+				sel = s
+				if t, okt := coqExpr(s.Where.Expr); okt {
+					treeTerm = "(Some " + t + ")"
+				}
+			}
+		}
+	}()
+	evaluable := sel != nil
+	var want []string
+	if sel != nil {
+		for _, kv := range store {
+			val, ferr, pn := execRow(sel.Where.Expr, kv[0], kv[1], false)
+			if ferr != nil || pn != "" {
+				evaluable = false
+			} else if b, isb := val.(bool); isb && b {
+				want = append(want, kv[0])
+			} else if !isb {
+				evaluable = false
+			}
+		}
+	}
+	index := map[string]int{}
+	for i, kv := range store {
+		index[kv[0]] = i
+	}
+	var firstFail *implFail
+	fail := func(what, sig string) {
+		if firstFail == nil {
+			firstFail = &implFail{What: what, Sig: sig, Replay: rp}
+		}
+	}
+	runs := []string{}
+	nontrivial := false
+	outcome := ""
+	for _, m := range pbModes {
+		st := newStore(store)
+		res := runQuery(query, st, m.batch, m.B, m.cache)
+		mcode := 0
+		if m.batch {
+			mcode = m.B
+		}
+		mode := fmt.Sprintf("batch=%v B=%d cache=%v", m.batch, m.B, m.cache)
+		var obs string
+		switch {
+		case res.Panic != "":
+			obs = "GPanic"
+			rp.Mode, rp.Err = mode, "panic: "+res.Panic
+			fail("select panics", "C01/text-panic")
+		case res.Err != nil && res.BuildErr:
+			if errClass(res.Err) == "syntax" {
+				obs = fmt.Sprintf("GReject (%d)", errPos(res.Err))
+			} else {
+				obs = "GBuildErr"
+			}
+			outcome = "rejected"
+		case res.Err != nil:
+			obs = "GDrainErr"
+			outcome = "accepted"
+			if evaluable && (!m.batch || !c01SubexprFails(sel.Where.Expr, store)) {
+				rp.Mode, rp.Err = mode, res.Err.Error()
+				fail("select fails although the predicate evaluates on every stored pair", "C01/text-error")
+			}
+		default:
+			outcome = "accepted"
+			idx := make([]int, len(res.Rows))
+			got := []string{}
+			for i, row := range res.Rows {
+				idx[i] = len(store)
+				if len(row) == 2 {
+					k, okk := row[0].([]byte)
+					v, okv := row[1].([]byte)
+					if j, have := index[string(k)]; okk && okv && have && store[j][1] == string(v) {
+						idx[i] = j
+					}
+					got = append(got, string(k))
+				} else {
+					got = append(got, fmt.Sprintf("<row of %d columns>", len(row)))
+				}
+			}
+			obs = "GRows " + coqNatList(idx)
+			if len(idx) > 0 && len(idx) < len(store) {
+				nontrivial = true
+			}
+			if sel != nil && evaluable && fmt.Sprint(got) != fmt.Sprint(want) {
+				rp.Mode, rp.Want, rp.Got = mode, want, got
+				fail("select * (from the query text) returns other rows than the filter applied to every stored pair", "C01/text-rows")
+			}
+		}
+		for _, cl := range st.log {
+			if isWrite(cl.Op) && sel != nil {
+				fail("select issued a write", "C01/text-write")
+			}
+		}
+		rp.Obs = append(rp.Obs, mode+": "+obs)
+		runs = append(runs, fmt.Sprintf("(%d, %s)", mcode, obs))
+	}
+	scanTerm := "None"
+	func() {
+		defer func() { recover() }()
+		if plan, perr := kvql.NewOptimizer(query).BuildPlan(newStore(store)); perr == nil {
+			if pp, ok := plan.(*kvql.ProjectionPlan); ok {
+				t, kind := pbScanTerm(pp.ChildPlan)
+				if t != "" {
+					scanTerm = "(Some " + t + ")"
+				}
+				rp.Scan = kind
+				if sel != nil {
+					e.count("text:scan=" + kind)
+				}
+			}
+		}
+	}()
+	idx := e.add(fmt.Sprintf("Text (TCase %s %s %s %s %s)", coqStr(query), coqPairs(store), treeTerm, scanTerm, coqList(runs)), rp, nontrivial)
+	// the model boundary as the Go side can see it (Model/Pipeline.v shape_guard; the Coq side
+	// decides: code 99)
+	if !pbShapeGuard(query) || (outcome == "accepted" && sel == nil) {
+		e.count("text:outside_model_statement_shape")
+	} else if strings.Contains(query, "~=") {
+		e.count("text:regexp_operator(outside_model_when_reached)")
+	}
+	switch {
+	case outcome == "accepted" && sel != nil:
+		e.count("text:accepted")
+		if !evaluable {
+			e.count("text:accepted_not_evaluable_on_every_pair")
+		}
+	case outcome == "accepted":
+		e.count("text:accepted_other_statement_shape")
+	default:
+		e.count("text:rejected")
+	}
+	if firstFail != nil {
+		firstFail.Replay = rp
+		e.fail(idx, firstFail.What, firstFail.Sig, firstFail.Replay)
+	}
+}
+
+func pbRun(c *runCtx, e *emitter, r *rng, genPred func() string, katoms []string) {
+	e.m.Rule += "; TEXT cases: the same predicates (plus constant / foldable sub-predicates AND/OR-mixed with key atoms, a directed list of rejections of every front-end stage, the `*` field context, statement shapes outside the model, and malformed variants) rendered as query texts with varied spacing, keyword case, `where P` without `select *`, trailing semicolons and extra parentheses; each text x store is run through kvql.NewOptimizer(q).BuildPlan(store) and drained row-at-a-time and in batches of 2, 3, 32, and compared with Model/Pipeline.v select_text on the text (rows, accept / reject, error position, checked tree, scan node)"
+	n := 420
+	if c.thorough() || c.search {
+		n = 9000
+	}
+	store := func() [][2]string { return c01Store(r, r.intn(24)) }
+	for _, q := range pbDirected {
+		pbCase(e, q, store())
+		if c.thorough() || c.search {
+			pbCase(e, q, store())
+			pbCase(e, pbRender(r, pbTokens(q), 2, true), store())
+		}
+	}
+	for i := 0; i < n; i++ {
+		var pred string
+		switch r.intn(8) {
+		case 0:
+			pred = fmt.Sprintf("(%s) %s (%s)", pick(r, pbConstAtoms), pick(r, []string{"&", "|"}), pick(r, katoms))
+		case 1:
+			pred = fmt.Sprintf("(%s) %s (%s)", pick(r, katoms), pick(r, []string{"&", "|", "and", "or"}), pick(r, pbConstAtoms))
+		case 2:
+			pred = pick(r, pbFoldAtoms)
+			if r.chance(1, 2) {
+				pred = fmt.Sprintf("%s %s %s", pred, pick(r, []string{"&", "|"}), pick(r, append(pbConstAtoms[:12:12], katoms...)))
+			}
+		case 3:
+			pred = fmt.Sprintf("((%s) | (%s)) & ((%s) | (%s))", pick(r, pbConstAtoms), pick(r, katoms), pick(r, pbFoldAtoms), pick(r, pbConstAtoms))
+		default:
+			pred = genPred()
+		}
+		q := pbText(r, pred)
+		if r.chance(1, 7) {
+			q = pbMangle(r, q)
+		}
+		pbCase(e, q, store())
+	}
 }
